@@ -53,8 +53,11 @@ def _fit(ctx, f, sig, desc, refusal_expected=False):
     comes out of the library means that no label is assigned on an input the model accepts: reported as a failing
     input (returns None).  An exception raised by this file is a tool failure."""
     import traceback
+    import warnings
     try:
-        f()
+        with warnings.catch_warnings():
+            warnings.simplefilter('ignore', RuntimeWarning)      # potts on an all-zero matrix divides by zero
+            f()
         return 'ok'
     except Exception as e:
         tb = traceback.extract_tb(e.__traceback__)
@@ -334,7 +337,8 @@ def louvain_cases(ctx, cls_name, b, params, force_bipartite, container='csr', li
         # a refusal the model shares: routing / modularity / node weights
         mid = '- -' if cls_name == 'Louvain' else '- - -'
         return [Case(key0 + ('refusal',), dict(sig0, output='refusal'),
-                     '%s %s %s %s %s %s' % (cmd, head, mid, opt(rec.index), enc_bool(est.sort_clusters),
+                     '%s %s %s %s %s %s' % (cmd, head, mid, '-' if rec.index is None else enc_list(rec.index),
+                                            enc_bool(est.sort_clusters),
                                             enc_bool(est.shuffle_nodes)), res, None, False, desc)]
     if bool(est.bipartite) != bip:
         ctx.spec_fail(dict(sig0, output='bipartite flag'), desc, {'estimator': bool(est.bipartite), 'routing': bip})
